@@ -6,6 +6,7 @@ source by a proof obligation (coq/Proofs/GenFns.v) instead of by sampling:
     AnsiString._slice_val_to_idx      -> gen_slice_val_to_idx : Z -> option Z -> Z -> Z
     AnsiSetting.valid                 -> gen_valid            : list Z -> bool        (code points)
     _AnsiControlFn.seq_starts_with_fn -> gen_seq_starts_with  : list Z -> list Z -> bool
+    _AnsiControlFn.rgb (component arithmetic) -> gen_rgb_split : Z -> Z*Z*Z, gen_rgb_clamp : Z -> Z -> Z -> Z*Z*Z
 
 Supported Python (anything else stops the translation with a diagnostic):
   statements   if / elif / else, `x = e`, `return e`, `for c in <seq>: if <cond>: return False` followed by
@@ -60,6 +61,10 @@ class Tr:
         if isinstance(n, ast.BinOp) and isinstance(n.op, (ast.Add, ast.Sub, ast.Mult)):
             op = {ast.Add: '+', ast.Sub: '-', ast.Mult: '*'}[type(n.op)]
             return '(%s %s %s)' % (self.ex(n.left), op, self.ex(n.right))
+        if isinstance(n, ast.BinOp) and isinstance(n.op, ast.BitAnd):
+            return '(Z.land %s %s)' % (self.ex(n.left), self.ex(n.right))
+        if isinstance(n, ast.BinOp) and isinstance(n.op, ast.RShift):
+            return '(Z.shiftr %s %s)' % (self.ex(n.left), self.ex(n.right))
         if isinstance(n, ast.UnaryOp) and isinstance(n.op, ast.USub):
             return '(- %s)' % self.ex(n.operand)
         if isinstance(n, ast.UnaryOp) and isinstance(n.op, ast.Not):
@@ -197,6 +202,36 @@ def tr_starts_with(tree):
             '  else negb (existsb (fun \'(%s, %s) => %s) (combine setup seq)).\n' % (a, b, cond))
 
 
+def tr_rgb(tree):
+    """_AnsiControlFn.rgb: the two ways the three components are computed (24-bit split / clamping)"""
+    fn = find_method(tree, '_AnsiControlFn', 'rgb')
+    params = [a.arg for a in fn.args.args]
+    if params[:3] != ['r_or_rgb', 'g', 'b']:
+        fail(fn, 'unexpected parameters %s' % params)
+    body = strip_doc(fn.body)
+    if not (body and isinstance(body[0], ast.If) and len(body[0].orelse) == 1 and isinstance(body[0].orelse[0], ast.If)):
+        fail(fn, 'rgb: expected if / elif / else at the start')
+    split_branch, clamp_branch = body[0].orelse[0].body, body[0].orelse[0].orelse
+    def triple(stmts, what):
+        assigns = [x for x in stmts if isinstance(x, ast.Assign)]
+        others = [x for x in stmts if not isinstance(x, ast.Assign)]
+        for o in others:
+            if not (isinstance(o, ast.If) and len(o.body) == 1 and isinstance(o.body[0], ast.Raise) and not o.orelse):
+                fail(o, 'rgb %s branch: unexpected statement' % what)
+        names = [a.targets[0].id if isinstance(a.targets[0], ast.Name) else None for a in assigns]
+        if names != ['r', 'g', 'b']:
+            fail(stmts[0], 'rgb %s branch: expected assignments to r, g, b' % what)
+        return assigns
+    sp = triple(split_branch, 'split')
+    cl = triple(clamp_branch, 'clamp')
+    # in the split branch g and b are reassigned from r_or_rgb only; in the clamp branch each from its own parameter
+    tr_s = Tr({'r_or_rgb': 'v'}, {})
+    tr_c = Tr({'r_or_rgb': 'r', 'g': 'g', 'b': 'b'}, {})
+    out = 'Definition gen_rgb_split (v : Z) : Z * Z * Z :=\n  (%s, %s, %s).\n\n' % tuple(tr_s.ex(a.value) for a in sp)
+    out += 'Definition gen_rgb_clamp (r g b : Z) : Z * Z * Z :=\n  (%s, %s, %s).\n' % tuple(tr_c.ex(a.value) for a in cl)
+    return out
+
+
 def main():
     src, out = sys.argv[1], sys.argv[2]
     try:
@@ -210,7 +245,7 @@ def main():
                 consts['ansi_term_ord_range'] = tuple(e.value for e in n.value.elts)
         text = ('(* GENERATED by tools/translate_fns.py from /repo/src/ansi_string - do not edit *)\n'
                 'From Coq Require Import ZArith List Bool.\nImport ListNotations.\nLocal Open Scope Z_scope.\n\n'
-                + tr_slice_val(t1) + '\n' + tr_valid(t2, consts) + '\n' + tr_starts_with(t2))
+                + tr_slice_val(t1) + '\n' + tr_valid(t2, consts) + '\n' + tr_starts_with(t2) + '\n' + tr_rgb(t2))
     except (Untranslatable, SyntaxError, OSError) as e:
         print('TRANSLATE-FNS-FAIL: %s' % e)
         sys.exit(3)
@@ -219,7 +254,7 @@ def main():
     old = open(path, encoding='utf-8').read() if os.path.exists(path) else None
     if old != text:
         open(path, 'w', encoding='utf-8').write(text)
-    print('TRANSLATE-FNS-OK 3 functions')
+    print('TRANSLATE-FNS-OK 4 functions')
 
 
 if __name__ == '__main__':
